@@ -1,33 +1,44 @@
 import Ptk.Proto
-import Ptk.Model.C06
+import Ptk.Model.C06Full
+import Ptk.Model.C06Vt
 open Ptk Ptk.Py Ptk.Proto Ptk.C06
 
 /-! Line-protocol driver for the C06 model (screen differ + renderer state + terminal model).
     See harness/c06.py for the grammar. -/
 
 structure DS where
-  w : Nat := 1
-  h : Nat := 1
   fs : Bool := false
   depth : Nat := 8
-  styles : List (Nat × Attrs) := []
+  /-- `(sk, tk, style id) ↦ Attrs`: what style sheet `sk` + transformation `tk` give for a style string -/
+  table : List (Nat × Nat × Nat × Attrs) := []
   wide : Text := []
   zero : Text := []
   cur : Screen := Screen.empty
   prev : Option Screen := none
-  rs : RState := RState.init.1
+  /-- the renderer session (application state + every `Renderer` attribute) -/
+  st : FSt := ⟨⟨1, 1, 0, 0, 8, false, 0⟩, (RFull.init false).1⟩
+  /-- the two dictionaries of the direct differ calls -/
+  dcs : Caches := ⟨⟨0, 0, 0, []⟩, ⟨⟨0, 0, 0, []⟩, []⟩⟩
   dpos : Point := ⟨0, 0⟩
   dlast : Option Nat := none
   term : Term := Term.fresh 1 1 0 (fun _ _ => TCell.blank)
+  /-- the `Vt100_Output` object (`_cursor_visible`, `_cursor_shape_changed`) and the terminal that reads its bytes -/
+  vst : VtSt := VtSt.init
+  bterm : BTerm := ⟨Term.fresh 1 1 0 (fun _ _ => TCell.blank), Sgr.dflt, .ground⟩
+  /-- the bytes written by the last operation -/
+  bytes : Text := []
 
-def DS.attrsOf (d : DS) (i : Nat) : Attrs :=
-  match d.styles.find? (·.1 == i) with
-  | some p => p.2
-  | none => Attrs.dflt
+def lookupT : List (Nat × Nat × Nat × Attrs) → Nat → Nat → Nat → Attrs
+  | [], _, _, _ => Attrs.dflt
+  | (a, b, c, v) :: rest, sk, tk, s => if a = sk ∧ b = tk ∧ c = s then v else lookupT rest sk tk s
 
-/-- the driver's terminal stores the raw attributes (`enc = id`): the grid comparison is only made for
-    cases rendered at one colour depth whose escape codes are pairwise distinct -/
-def DS.env (d : DS) : Env := ⟨d.w, d.h, d.fs, fun _ => d.attrsOf, 0, d.depth, fun _ a => a⟩
+/-- what a terminal displays for `set_attributes` is what the escape-code encoder and the SGR interpretation
+    make of it (`vtEnc`) -/
+def DS.world (d : DS) : World := ⟨lookupT d.table, vtEnc⟩
+def DS.w (d : DS) : Nat := d.st.app.w
+def DS.h (d : DS) : Nat := d.st.app.h
+/-- the environment of a direct differ call (style sheet 0, transformation 0) -/
+def DS.env (d : DS) : Env := AppSt.env d.world d.fs { d.st.app with sk := 0, tk := 0, depth := d.depth }
 def DS.cw (d : DS) (c : Char) : Nat :=
   if d.wide.contains c then 2 else if d.zero.contains c then 0 else 1
 
@@ -74,6 +85,7 @@ def encCmd : Cmd → String
   | .setCursorShape k => s!"shape{k}"
   | .scrollToPrompt => "scroll"
   | .flush => "flush"
+  | .askCpr => "cpr"
 
 def encCmds (cs : List Cmd) : String := encList encCmd cs
 
@@ -103,31 +115,83 @@ def encGrid (t : Term) : String :=
   s!"{t.row} {t.col} {b01 t.visible} {b01 t.autowrap} {encAttrs t.sgr} {t.scrolled} {b01 t.oob} " ++
     " ".intercalate rows
 
-def encRS (r : RState) : String :=
-  s!"{r.pos.x} {r.pos.y} {encLast r.lastStyle} {b01 r.lastScreen.isSome} {b01 r.inAlt}{b01 r.mouse}{b01 r.paste}{b01 r.ckm}"
+def encOpt : Option Nat → String
+  | none => "N"
+  | some k => toString k
 
-def DS.run (d : DS) (cs : List Cmd) : DS := { d with term := exec d.cw d.term cs }
+def encCpr : Cpr → String
+  | .unknown => "U"
+  | .supported => "S"
+  | .notSupported => "X"
+
+def encRS (r : RFull) : String :=
+  let sz := match r.lastSize with | some (a, b) => s!"{a}x{b}" | none => "N"
+  s!"{r.pos.x} {r.pos.y} {encLast r.lastStyle} {b01 r.lastScreen.isSome} {b01 r.inAlt}{b01 r.mouse}{b01 r.paste}{b01 r.ckm}" ++
+  s!" sk={encOpt r.styleHash} tk={encOpt r.transHash} d={encOpt r.lastDepth} sz={sz} sh={encOpt r.shape}" ++
+  s!" min={r.minAvail} cpr={encCpr r.cpr} wait={r.waiting}"
+
+/-- insertion sort by key (dict contents are compared as sorted lists) -/
+def insertBy {α : Type} (p : Nat × α) : List (Nat × α) → List (Nat × α)
+  | [] => [p]
+  | q :: rest => if p.1 ≤ q.1 then p :: q :: rest else q :: insertBy p rest
+
+def sortBy {α : Type} (l : List (Nat × α)) : List (Nat × α) := l.foldr insertBy []
+
+/-- the two dictionaries: sorted entries (the entry of the default char's style `[transparent]` = 1 is left
+    out: the model's dense rows visit gaps that the sparse dict rows do not), and whether the has-style cache
+    reads this attrs cache object -/
+def encCaches (ac : Option ACache) (hc : Option HCache) : String :=
+  let a := match ac with
+    | none => "N"
+    | some c => ",".intercalate ((sortBy (c.ents.filter (·.1 != 1))).map fun (p : Nat × Attrs) => s!"{p.1}={encAttrs p.2}")
+  let h := match hc with
+    | none => "N"
+    | some c => ",".intercalate ((sortBy (c.ents.filter (·.1 != 1))).map fun (p : Nat × Bool) => s!"{p.1}={b01 p.2}")
+  let al := match ac, hc with
+    | some c, some x => b01 (x.src.id == c.id)
+    | _, _ => "-"
+  s!"A[{a}] H[{h}] alias={al}"
+
+/-- execute the calls on the abstract terminal; encode them as `Vt100_Output` does and let the byte-level
+    interpreter read the result -/
+def DS.run (d : DS) (cs : List Cmd) : DS :=
+  let em := vtEmitAll d.vst cs
+  { d with term := exec d.cw d.term cs, vst := em.1, bterm := interp d.cw d.bterm em.2, bytes := em.2 }
+
+def encPState : PState → String
+  | .ground => "g"
+  | _ => "mid"
 
 def step (d : DS) (toks : List String) : DS × String :=
   let bad := (d, "bad-op")
   match toks with
-  | ["cfg", w, h, fs] =>
-    match decNat w, decNat h, decBool fs with
-    | some w, some h, some fs =>
-      ({ w := w, h := h, fs := fs, term := Term.fresh w h 0 (fun _ _ => TCell.blank) }, "ok")
-    | _, _, _ => bad
+  | ["cfg", w, h, fs, cpr] =>
+    match decNat w, decNat h, decBool fs, decBool cpr with
+    | some w, some h, some fs, some _ =>
+      ({ fs := fs, st := ⟨⟨w, h, 0, 0, 8, false, 0⟩, (RFull.init false).1⟩,
+         term := Term.fresh w h 0 (fun _ _ => TCell.blank),
+         bterm := ⟨Term.fresh w h 0 (fun _ _ => TCell.blank), Sgr.dflt, .ground⟩ }, "ok")
+    | _, _, _, _ => bad
   | ["depth", k] =>
     match decNat k with
-    | some k => ({ d with depth := k }, "ok")
+    | some k => ({ d with depth := k, st := (stepF d.world d.fs d.st (.setDepth k)).1 }, "ok")
     | none => bad
   | ["size", w, h] =>
     match decNat w, decNat h with
-    | some w, some h => ({ d with w := w, h := h }, "ok")
+    | some w, some h => ({ d with st := (stepF d.world d.fs d.st (.resize w h)).1 }, "ok")
     | _, _ => bad
-  | ["style", i, fg, bg, fl] =>
-    match decNat i, decAttrs fg bg fl with
-    | some i, some a => ({ d with styles := (i, a) :: d.styles }, "ok")
-    | _, _ => bad
+  | ["setstyle", k] =>
+    match decNat k with
+    | some k => ({ d with st := (stepF d.world d.fs d.st (.setStyle k)).1 }, "ok")
+    | none => bad
+  | ["settrans", k] =>
+    match decNat k with
+    | some k => ({ d with st := (stepF d.world d.fs d.st (.setTrans k)).1 }, "ok")
+    | none => bad
+  | ["style", sk, tk, i, fg, bg, fl] =>
+    match decNat sk, decNat tk, decNat i, decAttrs fg bg fl with
+    | some sk, some tk, some i, some a => ({ d with table := (sk, tk, i, a) :: d.table }, "ok")
+    | _, _, _, _ => bad
   | ["cw", k, s] =>
     match decNat k, decStr s with
     | some 2, some s => ({ d with wide := s }, "ok")
@@ -156,40 +220,71 @@ def step (d : DS) (toks : List String) : DS × String :=
     let pw := if pw == "-" then some d.w else decNat pw
     match px, py, last, decBool isDone, pw with
     | some px, some py, some last, some isDone, some pw =>
-      let o := diff d.env d.cur ⟨px, py⟩ d.prev last isDone pw
-      ({ d with dpos := o.pos, dlast := o.last }.run o.cmds,
-       s!"{encCmds o.cmds} | {o.pos.x} {o.pos.y} {encLast o.last}")
+      let o := diffC d.world d.env d.dcs d.cur ⟨px, py⟩ d.prev last isDone pw
+      ({ d with dpos := o.pos, dlast := o.last, dcs := o.cs }.run o.cmds,
+       s!"{encCmds o.cmds} | {o.pos.x} {o.pos.y} {encLast o.last} | {encCaches (some o.cs.ac) (some o.cs.hc)}")
     | _, _, _, _, _ => bad
-  | ["init"] =>
-    let r := RState.init
-    ({ d with rs := r.1 }.run r.2, s!"{encCmds r.2} | {encRS r.1}")
-  | ["render", isDone, mouse, key, shape] =>
-    match decBool isDone, decBool mouse, decNat key, decNat shape with
-    | some isDone, some mouse, some key, some shape =>
-      let r := d.rs.render d.env d.cur isDone mouse key shape
-      ({ d with rs := r.1 }.run r.2, s!"{encCmds r.2} | {encRS r.1}")
+  | ["init", cpr] =>
+    match decBool cpr with
+    | some cpr =>
+      let r := RFull.init cpr
+      ({ d with st := { d.st with r := r.1 } }.run r.2, s!"{encCmds r.2} | {encRS r.1}")
+    | none => bad
+  | ["render", isDone, mouse, shape, pref] =>
+    match decBool isDone, decBool mouse, decNat shape, decNat pref with
+    | some isDone, some mouse, some shape, some pref =>
+      let st1 := (stepF d.world d.fs (stepF d.world d.fs d.st (.setMouse mouse)).1 (.setShape shape)).1
+      let o := st1.r.render d.world d.fs st1.app d.cur isDone pref
+      ({ d with st := { st1 with r := o.st } }.run o.cmds,
+       s!"{encCmds o.cmds} | {encRS o.st} | h={o.height} | {encCaches o.st.attrsCache o.st.hasCache}")
     | _, _, _, _ => bad
   | ["erase", la] =>
     match decBool la with
     | some la =>
-      let r := d.rs.erase la
-      ({ d with rs := r.1 }.run r.2, s!"{encCmds r.2} | {encRS r.1}")
+      let r := stepF d.world d.fs d.st (.erase la)
+      ({ d with st := r.1 }.run r.2, s!"{encCmds r.2} | {encRS r.1.r}")
     | none => bad
   | ["reset", sc, la] =>
     match decBool sc, decBool la with
     | some sc, some la =>
-      let r := d.rs.reset sc la
-      ({ d with rs := r.1 }.run r.2, s!"{encCmds r.2} | {encRS r.1}")
+      let r := stepF d.world d.fs d.st (.reset sc la)
+      ({ d with st := r.1 }.run r.2, s!"{encCmds r.2} | {encRS r.1.r}")
     | _, _ => bad
   | ["clear"] =>
-    let r := d.rs.clear
-    ({ d with rs := r.1 }.run r.2, s!"{encCmds r.2} | {encRS r.1}")
+    match d.st.r.clear d.fs d.st.app.h with
+    | some q => ({ d with st := { d.st with r := q.1 } }.run q.2.1, s!"{encCmds q.2.1} | {encRS q.1} | timer={b01 q.2.2}")
+    | none => ({ d with bytes := [] }, "err:AssertionError")
+  | ["reqcpr"] =>
+    match d.st.r.requestCpr d.fs d.st.app.h with
+    | some q => ({ d with st := { d.st with r := q.1 } }.run q.2.1, s!"{encCmds q.2.1} | {encRS q.1} | timer={b01 q.2.2}")
+    | none => ({ d with bytes := [] }, "err:AssertionError")
+  | ["cprrow", row] =>
+    match decInt row with
+    | some row =>
+      let r := stepF d.world d.fs d.st (.reportCpr row)
+      ({ d with st := r.1 }, s!"{encRS r.1.r}")
+    | none => bad
+  | ["cprtimeout"] =>
+    let r := stepF d.world d.fs d.st .cprTimeout
+    ({ d with st := r.1 }, s!"{encRS r.1.r}")
+  | ["hknown"] => (d, b01 (d.st.r.heightIsKnown d.fs))
+  | ["rowsabove"] =>
+    match d.st.r.rowsAboveLayout d.st.app.h with
+    | some v => (d, toString v)
+    | none => (d, "err:HeightIsUnknownError")
   | ["term", top] =>
     match decNat top with
-    | some top => ({ d with term := Term.fresh d.w (d.h - top) top (fun _ _ => TCell.blank) }, "ok")
+    | some top =>
+      -- a fresh terminal of the same geometry that keeps the modes (what the next prompt finds)
+      let keep (old : Term) : Term :=
+        { Term.fresh d.w (d.h - top) top (fun _ _ => TCell.blank) with
+            sgr := old.sgr, autowrap := old.autowrap, visible := old.visible }
+      ({ d with term := keep d.term, bterm := { d.bterm with t := keep d.bterm.t } }, "ok")
     | none => bad
   | ["rebase"] => ({ d with term := d.term.rebase }, "ok")
   | ["grid"] => (d, encGrid d.term)
+  | ["bgrid"] => (d, encPState d.bterm.ps ++ " " ++ encGrid d.bterm.t)
+  | ["bytes"] => (d, encStr d.bytes)
   | _ => bad
 
 def main : IO Unit := runS step {}
